@@ -5,6 +5,7 @@
 import GasolVerif.Models.Encoding
 import GasolVerif.Models.EncodingOrder
 import GasolVerif.Models.EncodingSoft
+import GasolVerif.Models.EncodingEmpty
 import GasolVerif.Models.FormulaIO
 namespace GasolVerif.Enc
 open GasolVerif.Formula
@@ -86,11 +87,11 @@ def parsePairs (s : String) : Option (List OrderPair) :=
 /-- ENC: `ok <instOk> <all raw trees well sorted> <premises of the injectivity theorem> <premises of the order theorems>`,
     then the built core constraints, `#inj` and the injectivity constraints, `#order` and the order constraints
     (direct memory encoding only; with uninterpreted theta values also their `distinct` constraint); tab separated -/
-def handleEnc (bs b0 lim mode term instrs src tgt terms memenc pairs ls ledges wts : String) : String :=
+def handleEnc (bs b0 lim mode term instrs src tgt terms memenc pairs ls ledges wts emp : String) : String :=
   match parseInst bs b0 lim (if mode == "uf" then "1" else "0") term instrs src tgt terms with
   | none => "error:parse"
   | some I =>
-    match coreRaw I, coreBuilt I, parsePairs pairs with
+    match (if emp == "1" then coreRawE I else coreRaw I), (if emp == "1" then (coreRawE I).bind buildAll else coreBuilt I), parsePairs pairs with
     | some raws, some built, some ps =>
       let (injRaws, injOk) := injPart I mode
       let lsN := (splitNE' ls ",").filterMap String.toNat?
@@ -112,7 +113,7 @@ def handleEnc (bs b0 lim mode term instrs src tgt terms memenc pairs ls ledges w
       let softOkB := wts != "-" && softOk I wl && orderOk I && thetasOk I
       match buildAll injRaws, buildAll ordRaws, buildAll (softs.map (·.1)) with
       | some injBuilt, some ordBuilt, some softBuilt =>
-        s!"ok {if instOk I then 1 else 0} {if ws && (softs.map (·.1)).all F.ws then 1 else 0} {if injOk then 1 else 0} {if ordOk then 1 else 0} {if softOkB then 1 else 0}" ++ "\t" ++
+        s!"ok {if instOk I && decide (1 ≤ I.bs) then 1 else 0} {if ws && (softs.map (·.1)).all F.ws then 1 else 0} {if injOk then 1 else 0} {if ordOk then 1 else 0} {if softOkB then 1 else 0}" ++ "\t" ++
           "\t".intercalate (built.map showF ++ ["#inj"] ++ injBuilt.map showF ++ ["#order"] ++ ordBuilt.map showF ++ ["#soft"] ++
             (softBuilt.zip (softs.map (·.2))).map fun (f, w) => s!"{w}@" ++ showF f)
       | _, _, _ => "error:constructor-raises"
